@@ -46,6 +46,7 @@ import (
 	sigsubtle "github.com/tink-crypto/tink-go/v2/signature/subtle"
 	"github.com/tink-crypto/tink-go/v2/streamingaead"
 	streamsubtle "github.com/tink-crypto/tink-go/v2/streamingaead/subtle"
+	"github.com/tink-crypto/tink-go/v2/streamingaead/subtle/noncebased"
 	"github.com/tink-crypto/tink-go/v2/tink"
 	"github.com/tink-crypto/tink-go/v2/verifharness/hx"
 	"google.golang.org/protobuf/proto"
@@ -578,6 +579,22 @@ func (k kekWithContext) DecryptWithContext(_ context.Context, ct, ad []byte) ([]
 	return k.a.Decrypt(ct, ad)
 }
 
+// nonceRecorder is a segment encrypter / decrypter that remembers the nonce of the last segment
+type nonceRecorder struct{ last []byte }
+
+func (n *nonceRecorder) EncryptSegment(segment, nonce []byte) ([]byte, error) {
+	n.last = bytes.Clone(nonce)
+	return bytes.Clone(segment), nil
+}
+func (n *nonceRecorder) DecryptSegment(segment, nonce []byte) ([]byte, error) {
+	n.last = bytes.Clone(nonce)
+	return bytes.Clone(segment), nil
+}
+
+type zeroReader struct{}
+
+func (zeroReader) Read(p []byte) (int, error) { clear(p); return len(p), nil }
+
 func ed25519FixedKey() ed25519.PrivateKey {
 	return ed25519.NewKeyFromSeed(bytes.Repeat([]byte{0x42}, 32))
 }
@@ -840,6 +857,29 @@ func ctors() []ctor {
 				return []byte(fmt.Sprint(len(c), err))
 			}, nil
 		}, []int{2}},
+		{"streamingaead/subtle/noncebased.NewWriter(params.NoncePrefix)", func(in [][]byte) (func() []byte, error) {
+			rec := &nonceRecorder{}
+			w, err := noncebased.NewWriter(noncebased.WriterParams{W: io.Discard, SegmentEncrypter: rec, NonceSize: 12,
+				NoncePrefix: in[0], PlaintextSegmentSize: 16})
+			if err != nil {
+				return nil, err
+			}
+			// every call writes two segments' worth, so at least one segment is encrypted; the fingerprint is
+			// the prefix part of the nonce it was encrypted under
+			return func() []byte { w.Write(bytes.Repeat([]byte{7}, 32)); return bytes.Clone(rec.last[:len(in[0])]) }, nil
+		}, []int{7}},
+		{"streamingaead/subtle/noncebased.NewReader(params.NoncePrefix)", func(in [][]byte) (func() []byte, error) {
+			rec := &nonceRecorder{}
+			r, err := noncebased.NewReader(noncebased.ReaderParams{R: zeroReader{}, SegmentDecrypter: rec, NonceSize: 12,
+				NoncePrefix: in[0], CiphertextSegmentSize: 16})
+			if err != nil {
+				return nil, err
+			}
+			return func() []byte {
+				io.ReadFull(r, make([]byte, 32))
+				return bytes.Clone(rec.last[:len(in[0])])
+			}, nil
+		}, []int{7}},
 		{"signature/subtle.NewED25519Verifier", func(in [][]byte) (func() []byte, error) {
 			v, err := sigsubtle.NewED25519Verifier(in[0])
 			if err != nil {
